@@ -6,6 +6,7 @@ __license__ = "GNU GPLv2"
 import collections
 import itertools
 import operator
+import sys
 
 from beancount.core import display_context
 from beancount.parser import printer
@@ -302,6 +303,6 @@ def execute_select(query):
 
     # Apply LIMIT.
     if query.limit is not None:
-        rows = itertools.islice(rows, query.limit)
+        rows = itertools.islice(rows, min(query.limit, sys.maxsize))
 
     return result_types, list(rows)
